@@ -2,7 +2,7 @@
 from .. import charset, tables
 from ..callgraph import norm
 from ..common import callee_names, body_by_name
-from ..facts import callee, op_local, op_place
+from ..facts import callee, const_str, op_const, op_local, op_place
 from ..flow import Flow, identity_through
 from .C12 import parser_key_alphabet, tag_valid_alphabet
 
@@ -368,11 +368,65 @@ def tag_key_problems(prog):
     return out, len(named)
 
 
+def static_name_table(prog, adt_suffix):
+    """Data-driven form of a name table: `static NAMES: [(&str, Enum); N] = [("name", Enum::Variant), ..]` looked up with
+    `NAMES.iter().find(|(name, _)| *name == raw)` and the hit's variant cloned.  Returns (rows [(literal, ci, variant)], the body
+    that does the lookup) or (None, None).  The lookup must compare the row's name with the received value by an exact `==`."""
+    for sb in prog.bodies.values():
+        if not str(sb.kind).startswith("Static") or sb.crate != "mpd_client":
+            continue
+        ty0 = sb.local_ty(0)
+        if not (ty0.startswith("[(&str, ") and adt_suffix in ty0):
+            continue
+        variant_of = {}
+        rows = []
+        for _, _, st in sb.stmts():
+            if st["k"] == "assign" and st["rv"]["k"] == "agg" and st["rv"].get("agg") == "adt" and str(st["rv"].get("adt_name", "")).endswith(adt_suffix):
+                variant_of[st["place"]["l"]] = st["rv"].get("variant")
+        for _, _, st in sb.stmts():
+            if st["k"] == "assign" and st["rv"]["k"] == "agg" and st["rv"].get("agg") == "tuple" and len(st["rv"]["ops"]) == 2:
+                c = op_const(st["rv"]["ops"][0])
+                lit = const_str(c) if c is not None else None
+                v = variant_of.get(op_local(st["rv"]["ops"][1]))
+                if lit is not None and v is not None:
+                    rows.append((lit, False, v))
+        if len(rows) < 3:
+            continue
+        for ub in prog.bodies.values():
+            if ub.crate != "mpd_client" or ub.raw.get("derived"):
+                continue
+            refs = any(st["k"] == "assign" and st["rv"]["k"] == "use" and (op_const(st["rv"]["op"]) or {}).get("ty") == "&" + ty0 for _, _, st in ub.stmts())
+            if not refs:
+                continue
+            finds = [(bb, t) for bb, t in ub.calls() if any(n.endswith(("Iterator::find", "Iterator::position", "Iterator::find_map")) for n in callee_names(t))]
+            exact = False
+            for bb, t in finds:
+                for a in t["args"]:
+                    l = op_local(a)
+                    pb = None
+                    if l is not None:
+                        for _, _, st in ub.stmts():
+                            if st["k"] == "assign" and st["place"]["l"] == l and st["rv"]["k"] == "agg" and st["rv"].get("agg") == "closure":
+                                pb = prog.bodies.get(st["rv"]["def"])
+                    if pb is not None:
+                        cmps = [callee_names(t2) for _, t2 in pb.calls()]
+                        eqs = [ns for ns in cmps if any(n.endswith("PartialEq::eq") or n.endswith("::eq") for n in ns)]
+                        other = [ns for ns in cmps if ns not in eqs and not any(n.endswith(("::deref", "::as_ref", "::as_str", "::borrow")) for n in ns)]
+                        exact = len(eqs) == 1 and not other and not any("ignore" in n for ns in eqs for n in ns)
+            clones = any(any(n.endswith("Clone::clone") for n in callee_names(t)) for _, t in ub.calls())
+            if exact and clones:
+                return rows, ub
+    return None, None
+
+
 def subsystem_rules(rep, prog, cfg):
     rule = "C20.subsystem-tables"
     bs = body_by_name(prog, "mpd_client::client::Subsystem::as_str")
     # the name -> variant table: found by what it constructs (string compares leading to Subsystem variants), not by name
     ff = [b for b in prog.bodies.values() if b.crate == "mpd_client" and not b.raw.get("derived") and len(parse_table(b, "client::Subsystem")[0]) >= 3]
+    st_rows, st_user = (None, None) if ff else static_name_table(prog, "client::Subsystem")
+    if st_user is not None:
+        ff = [st_user]
     if len(bs) != 1 or not ff:
         rep.fail(rule + ".anchor", cfg, "client/mod.rs", "Subsystem::as_str / from_frame not found")
         return
@@ -386,7 +440,7 @@ def subsystem_rules(rep, prog, cfg):
     ptab = []
     pbody = None
     for b in ff:
-        pt, bad = parse_table(b, "client::Subsystem")
+        pt, bad = (st_rows, []) if st_user is not None else parse_table(b, "client::Subsystem")
         if pt:
             ptab, pbody = pt, b
             rep.check(not bad, rule, cfg + "/from_frame arms", b.loc(b.span), "comparisons without a unique variant: %s" % bad)
